@@ -87,3 +87,28 @@ pub fn interesting_u64(max: u64) -> BoxedStrategy<u64> {
     v.dedup();
     prop::sample::select(v).boxed()
 }
+
+/// a character of U+00A1..=U+00FF: the second byte of its UTF-8 form ranges over 0x80..=0xBF
+pub fn latin1_char() -> BoxedStrategy<char> {
+    (0xa1u32..=0xff).prop_map(|c| char::from_u32(c).unwrap()).boxed()
+}
+
+/// magnitudes at which a narrower integer type, a packed field or a fixed buffer changes its
+/// behaviour: 2^k and 10^k (k chosen), each minus 0..=4 and plus 1, below `max`
+pub fn magnitude_neighbours(max: u64) -> Vec<u64> {
+    let mut v = vec![];
+    for k in [7u32, 8, 15, 16, 24, 31, 32, 33, 48, 53, 62, 63] {
+        let p = 1u64 << k;
+        v.extend((0..=4).map(|d| p - d));
+        v.push(p + 1);
+    }
+    let mut p = 100u64;
+    for _ in 2..19 {
+        v.extend([p - 1, p, p + 1]);
+        p = p.saturating_mul(10);
+    }
+    v.retain(|n| *n <= max);
+    v.sort();
+    v.dedup();
+    v
+}
